@@ -4,6 +4,7 @@ passing/failing counts, output frame/file contents, in-place behaviour, stale ou
 Constraints/Detect.v and a per-record statement of each constraint's meaning."""
 import contextlib
 import io
+import json
 import math
 import os
 import shutil
@@ -286,6 +287,22 @@ def run(ctx):
                         else:
                             try:
                                 od = pd.read_csv(outpath) if fmt == 'csv' else pd.read_parquet(outpath)
+                                # the flag columns of the FILE: false exactly on the records that violate the constraint
+                                # (in a parquet file flags are booleans or null, never text)
+                                bad_flags = []
+                                if len(od) == len(rows):
+                                    for cn_, wc_ in want_cols.items():
+                                        if cn_ not in od:
+                                            continue
+                                        for pos_, r_ in enumerate(rows):
+                                            cell_ = od[cn_].iloc[pos_]
+                                            isnull_ = cell_ is None or (isinstance(cell_, float) and cell_ != cell_) or cell_ is pd.NA
+                                            if fmt == 'parquet' and not isnull_ and not isinstance(cell_, (bool, np.bool_)):
+                                                bad_flags.append('%s[%d] is %r (not a boolean)' % (cn_, pos_, cell_))
+                                            elif wc_[r_] is True and (isnull_ or str(cell_).lower() != 'false'):
+                                                bad_flags.append('%s[%d] is %r, the record violates the constraint' % (cn_, pos_, cell_))
+                                if bad_flags:
+                                    ctx.fail(desc, 'output file flags: %s' % '; '.join(bad_flags[:4]))
                                 if len(od) != len(rows):
                                     ctx.fail(desc, 'output file holds %d records, expected %d' % (len(od), len(rows)))
                                 elif 'n_failures' in od and [int(x) for x in od['n_failures']] != \
@@ -379,6 +396,37 @@ def run(ctx):
                          'detect_df with the default repair=True changed the caller\'s column dtype %s -> %s '
                          'although in_place was not requested' % (keep.dtypes['x'], df.dtypes['x']),
                          finding=F_REPAIR)
+        # ---- one constraints FILE revised between runs (the same path, new content): every detection applies the
+        # constraints the file holds now - verdicts, records and output file as for the same constraints given as a dict
+        for it in range(12 if ctx.quick else 200):
+            n_ = rng.randint(4, 8)
+            df = pd.DataFrame({'id': list(range(n_)), 'amount': [rng.choice([5, 20, 75, 120]) for _ in range(n_)]})
+            tpath = os.path.join(work, 'revised%d.tdda' % (it % 2))
+            outp = os.path.join(work, 'revised-out%d.csv' % it)
+            revisions = [{'fields': {'amount': {'type': 'int', 'max': rng.choice([10, 50, 100, 500])}}} for _ in range(rng.randint(2, 3))]
+            for rev_no, cd in enumerate(revisions):
+                with open(tpath, 'w') as f_:
+                    json.dump(cd, f_)
+                case = {'scenario': 'constraints file revised between runs', 'revision': rev_no, 'constraints': cd,
+                        'earlier_revisions': revisions[:rev_no], 'amount': list(df['amount'])}
+                ctx.count(repr(case) + str(it), True)
+                ctx.bump('revised_constraints_file')
+                try:
+                    with contextlib.redirect_stderr(io.StringIO()), contextlib.redirect_stdout(io.StringIO()):
+                        vp_ = detect_df(df.copy(), tpath, outpath=outp, output_fields=[], per_constraint=True)
+                        vd_ = detect_df(df.copy(), json.loads(json.dumps(cd)), output_fields=[], per_constraint=True)
+                except Exception as e:
+                    ctx.fail(case, 'detect_df raised %s: %s' % (type(e).__name__, str(e)[:200]))
+                    break
+                want_rows = [i_ for i_, a_ in enumerate(df['amount']) if a_ > cd['fields']['amount']['max']]
+                got_rows = [] if vp_.detected() is None else list(vp_.detected().index)
+                if (vp_.failures, got_rows) != (vd_.failures, want_rows) or os.path.exists(outp) != bool(want_rows):
+                    ctx.fail(case, 'with the file as it is now: %d failing constraint(s), records %r, output file %s; the same '
+                             'constraints as a dictionary: %d, records %r' % (vp_.failures, got_rows,
+                             'written' if os.path.exists(outp) else 'absent', vd_.failures, want_rows))
+                    break
+                if os.path.exists(outp):
+                    os.remove(outp)
     finally:
         shutil.rmtree(work, ignore_errors=True)
     ctx.cov['rule'] = ('(frame, constraint set) pairs as in C02 (no missing fields) x {write_all, index, in_place} x '
